@@ -59,7 +59,7 @@ def build_xml(ex, skel):
   count = [0]
 
   def rec(sk, xparent, nparent):
-    kind, flags, kids = sk
+    kind, flags, kids = (list(sk) + [[]])[:3]
     n = XNode(kind, nparent)
     idx = count[0]
     count[0] += 1
@@ -424,10 +424,13 @@ class MalformedHarness(Harness):
     old_disable = logging.root.manager.disable
     logging.disable(logging.NOTSET)
     lg.addHandler(cap)
+    prop_ = lg.propagate
+    lg.propagate = False
     try:
       doc, exc = call(ex, lambda: imsc_reader.to_model(et.ElementTree(et.fromstring(xml))))
     finally:
       lg.removeHandler(cap)
+      lg.propagate = prop_
       logging.disable(old_disable)
     det = {"attr": name, "where": where, "well_formed": ok, "_value": val}
     ex.witness("well-formed" if ok else "malformed")
